@@ -292,6 +292,11 @@ CHECKS = {
     technique='runtime monitoring: executable reference model (vt/miniprolog.py, an SLD interpreter with ISO cut, if-then-else, negation and disjunction semantics) compared with the compiled program on full answer sequences',
     text="Random layered programs (ground fact tables, rules of 1-4 clauses whose bodies mix calls with variable/constant/structure arguments, ==, \\\\==, @<, @>=, =, disjunction, if-then-else, negation and cuts; heads with repeated variables, constants and structures) plus the recursive list predicates app/3, mem/2, len/2, rev/3 are consulted as static code; every predicate is queried with all arguments free and with each argument given, and 10 list-library queries (incl. conjunctions with negation and arithmetic comparison) are run; the full answer sequence (order, multiplicity, bindings up to renaming, fresh variables per answer) must equal the reference interpreter's.",
     note='Cases the model cannot decide are dropped, never judged: comparison of distinct unbound variables with @</@>=, more than 300 answers, more than 200000 interpreter steps. Two clause shapes that hit compiler defects (known findings K41, K42) are not generated at random and are probed by one fixed clause each.'),
+ 'C08': dict(
+    level='exploration',
+    technique='runtime monitoring: differential between loading modes (static, discontiguous, dynamic+assertz, clause/2 meta-interpreter) and calling modes (direct, call/1, call/N, partial goals, wrapper clauses) of one random program',
+    text='Each random program (C07 generator, 40% cut-free, plus the list library) is installed under different predicate-name prefixes as static code, as interleaved discontiguous clauses, as a dynamic predicate filled clause by clause with assertz/1, and is interpreted by a clause/2 meta-interpreter (cut-free programs); every query (all-free and one-argument-given calls of every predicate, list-library goals) is run directly, through call/1 of the goal term, call/N with name and arguments, call/N with a partial goal, and four kinds of wrapper clause; all answer sequences must equal those of the static direct call.',
+    note='Queries whose evaluation orders distinct unbound variables are skipped (implementation-defined order); clause shapes of the compiler findings K41-K43 are not generated (they are probed by C07). The meta-interpreter exposed K43 (the compiled code was the wrong side).'),
 }
 
 NOT_APPLICABLE_REASON_UNBUILT = ('check designed in DESIGN.md but not built/validated yet in this session; '
